@@ -533,6 +533,12 @@ func runProj(dir string, seed int64, n int) {
 			if fuErr != firstErr || (!fuErr && len(first) == 1 && (len(fu) != 1 || !sameBytes(fu[0], first[0]))) {
 				finding("driver", "FindOneAndUpdate with projection returns a different document than Find", args)
 			}
+			if fuErr {
+				// a projection that is rejected makes the call an error, and a call that fails leaves the document as it was
+				if full, _ := cursorDocs(coll.Find(ctx, bson.D{})); len(full) != 1 || !sameBytes(full[0], doc) {
+					finding("mutation", "a FindOneAndUpdate whose projection is rejected changed the stored document", map[string]interface{}{"doc": table.Val(doc), "proj": table.Val(proj), "after": vals(full)})
+				}
+			}
 			// the post-image of an upsert is projected like any other returned document (and an ill-formed projection
 			// is rejected there as well)
 			if i%3 == 0 {
